@@ -98,6 +98,7 @@ var profiles = map[string]Profile{
 type Gen struct {
 	lastAct *wire.Action
 	crowd   bool
+	latency bool
 	noProbe bool
 	rnd     *rand.Rand
 	w       *World
@@ -117,6 +118,7 @@ func NewGen(rnd *rand.Rand, w *World, prof string, nconn int) *Gen {
 		g.crowd = true
 		g.nconn = 65 + rnd.Intn(6)
 	}
+	g.latency = prof == "latency"
 	total := 0.0
 	for k := range baseWeights {
 		g.kinds = append(g.kinds, k)
@@ -479,6 +481,10 @@ func (g *Gen) Run(steps int) {
 			continue
 		}
 		c := live[g.rnd.Intn(len(live))]
+		if _, joined := g.w.know.joined[c]; g.latency && joined && g.rnd.Intn(10) == 0 {
+			g.measure(c)
+			continue
+		}
 		switch x := g.rnd.Intn(100); {
 		case x < 62:
 			r := g.Request(c)
@@ -521,6 +527,33 @@ func (g *Gen) Run(steps int) {
 	g.settle()
 	if !g.noProbe {
 		g.probe()
+	}
+}
+
+// measure runs one signed latency measurement of a joined connection to its end: the request, then an answer to every
+// ping the server issues - now and then preceded by an answer to a ping answered before or never issued.  The same
+// connection is measured again later in the history, on the state the previous measurement left.
+func (g *Gen) measure(c int) {
+	r := g.RequestOf(c, "signedLatency")
+	r.N1 = uint32(3 + g.rnd.Intn(3))
+	r.Str = "0xabc"
+	g.do(c, r)
+	for round := 0; round < 8 && g.w.conns[c].alive; round++ {
+		ps := g.w.know.pings[c]
+		if len(ps) == 0 {
+			return
+		}
+		if g.rnd.Intn(6) == 0 {
+			stray := g.RequestOf(c, "pingResp")
+			stray.PingRef = []int{1, len(ps) + 2}[g.rnd.Intn(2)]
+			g.do(c, stray)
+		}
+		a := g.RequestOf(c, "pingResp")
+		a.PingRef = len(ps)
+		g.do(c, a)
+		if len(g.w.know.pings[c]) == len(ps) { // no further ping was issued: the measurement is over (or was refused)
+			return
+		}
 	}
 }
 
